@@ -8,6 +8,9 @@
     equivalence as the explicit premise [reader_iff_valid]; the theorems exported to Props/C16.v
     discharge it and are unconditional.
 
+    The clause "a valid run processed the cases in the declarative order [spec_processed]" is
+    discharged with [processing_order_is_declarative] of Proofs/SuiteValid.v.
+
     The correspondence half compares every field the property half reads: exit code, INVALID flag,
     processed cases, executed cases, the junit counters and children (JUnit), the final OK / ERROR
     identifier (Progress; [None] for an INVALID run). *)
@@ -108,9 +111,10 @@ Proof.
   rewrite Hrv. unfold run_suite.
   rewrite Z.eqb_refl, eqb_reflx, (proj2 (list_eqb_eq _ pairN_eqb_eq _ _) eq_refl),
           (proj2 (list_eqb_eq _ n_eqb_eq' _ _) eq_refl). cbn [andb].
-  destruct (read_root fs root) as [e|h]; cbn [run_exit run_invalid run_processed negb Bool.eqb andb].
+  destruct (read_root fs root) as [e|h] eqn:Er; cbn [run_exit run_invalid run_processed negb Bool.eqb andb].
   - destruct rep; reflexivity.
-  - set (results := map _ (processed h)).
+  - rewrite (processing_order_is_declarative _ _ _ Er), (proj2 (list_eqb_eq _ pairN_eqb_eq _ _) eq_refl). cbn [andb].
+    set (results := map _ (processed h)).
     destruct rep.
     + cbn [option_eqb]. rewrite eqb_reflx. f_equal. apply progress_property.
     + do 3 rewrite Nat.eqb_refl. rewrite (proj2 (list_eqb_eq _ junit_child_eqb_eq _ _) eq_refl). cbn [andb]. f_equal.
@@ -127,14 +131,16 @@ Proof.
   cbn [sc_reporter sc_fs sc_root sc_outcomes sc_obs_exit sc_obs_invalid sc_obs_final_ok sc_obs_processed
        sc_obs_executed sc_obs_junit fst snd] in *. cbn zeta.
   rewrite Hrv. unfold run_suite.
-  destruct (read_root fs root) as [e|h]; cbn [run_exit run_invalid run_processed negb].
+  destruct (read_root fs root) as [e|h] eqn:Er; cbn [run_exit run_invalid run_processed negb].
   - intros H. rewrite !andb_true_iff in H. destruct H as [[[[H1 H2] H3] H4] _].
     apply Z.eqb_eq in H1. apply eqb_prop in H2. apply (list_eqb_eq _ pairN_eqb_eq) in H3.
     cbn [filter map] in H4. apply (list_eqb_eq _ n_eqb_eq') in H4. subst. reflexivity.
   - set (out := outcome_of outcomes).
     intros H. rewrite !andb_true_iff in H. destruct H as [[[[H1 H2] H3] H4] H5].
     apply Z.eqb_eq in H1. apply eqb_prop in H2. apply (list_eqb_eq _ pairN_eqb_eq) in H3. subst oexit oinv oproc.
-    cbn [Bool.eqb andb]. set (results := map _ (processed h)) in *.
+    cbn [Bool.eqb andb].
+    rewrite (processing_order_is_declarative _ _ _ Er), (proj2 (list_eqb_eq _ pairN_eqb_eq _ _) eq_refl). cbn [andb].
+    set (results := map _ (processed h)) in *.
     destruct rep.
     + apply opt_bool_eqb_eq in H5. subst ofinal. apply progress_property.
     + destruct ojunit as [[[[t f] e] ch]|]; [|discriminate].
@@ -178,5 +184,9 @@ Example c16_predicate_accepts_and_rejects :
   snd (check_c16 (C16Case Progress fs1 1%N outs1 3 true None [] [] None)) = false /\
   (* an invalid hierarchy whose cases were run *)
   snd (check_c16 (C16Case Progress fs_cyc 1%N outs1 0 false (Some true) [(1, 10)]%N [10%N] None)) = false /\
-  snd (check_c16 (C16Case Progress fs_cyc 1%N outs1 3 true None [(1, 10)]%N [10%N] None)) = false.
+  snd (check_c16 (C16Case Progress fs_cyc 1%N outs1 3 true None [(1, 10)]%N [10%N] None)) = false /\
+  (* the right cases with the right verdict, but the glob matches not in path order *)
+  snd (check_c16 (C16Case Progress fs1 1%N outs1 4 false (Some false) [(2, 21); (2, 20); (1, 10)]%N [21; 20; 10]%N None)) = false /\
+  (* ... or the suite's own case before its sub-suite *)
+  snd (check_c16 (C16Case Progress fs1 1%N outs1 4 false (Some false) [(1, 10); (2, 20); (2, 21)]%N [10; 20; 21]%N None)) = false.
 Proof. vm_compute. repeat split. Qed.
